@@ -175,6 +175,8 @@ pub(crate) fn repair_snapshots<S: IndexedFull>(
 
     let mut state = RepairState::new(opts, repo.index());
     let modifier = TreeModifier::new(be, repo.index(), config_file, dry_run)?;
+    // modified snapshots are saved only after the modifier has written the new trees and the index
+    let mut modified_snapshots = Vec::new();
 
     for mut snap in snapshots {
         let snap_id = snap.id;
@@ -207,14 +209,19 @@ pub(crate) fn repair_snapshots<S: IndexedFull>(
                 if dry_run {
                     info!("would have modified snapshot {snap_id}.");
                 } else {
-                    let new_id = be.save_file(&snap)?;
-                    info!("saved modified snapshot as {new_id}.");
+                    modified_snapshots.push(snap);
                 }
                 state.delete.push(snap_id);
             }
         }
     }
     modifier.finalize()?;
+
+    for snap in modified_snapshots {
+        let snap_id = snap.original.unwrap_or(snap.id);
+        let new_id = be.save_file(&snap)?;
+        info!("saved modified snapshot {snap_id} as {new_id}.");
+    }
 
     if opts.delete {
         if dry_run {
